@@ -176,6 +176,10 @@ class Build:
             return self.V(r[1])[r[2]]
         if k == "melem":
             return self.M(r[1])[r[2], r[3]]
+        if k == "chain":
+            # ('chain', op, [terms], assoc): a sum / product accumulated term by term
+            terms = [self.S(t) for t in r[2]]
+            return _fold(r[1], terms, r[3])
         raise ValueError(f"unknown scalar recipe {r!r}")
 
     def W(self, r):
@@ -263,6 +267,36 @@ class Build:
         if k == "mneg":
             return -self.M(r[1])
         raise ValueError(f"unknown matrix recipe {r!r}")
+
+
+def _fold(op, terms, assoc, ref=None):
+    """fold a term list with a binary operator; iterative for left / right
+    association (so that 20000-term chains need no recursion in the harness)"""
+    def ap(a, b):
+        if op == "/" and ref is not None:
+            ref._nonzero(b)
+        return _binop(op, a, b)
+    if assoc == "left":
+        acc = terms[0]
+        for t in terms[1:]:
+            acc = ap(acc, t)
+        return acc
+    if assoc == "right":
+        acc = terms[-1]
+        for t in reversed(terms[:-1]):
+            acc = ap(t, acc)
+        return acc
+    if assoc == "balanced":
+        level = list(terms)
+        while len(level) > 1:
+            nxt = []
+            for i in range(0, len(level) - 1, 2):
+                nxt.append(ap(level[i], level[i + 1]))
+            if len(level) % 2:
+                nxt.append(level[-1])
+            level = nxt
+        return level[0]
+    raise ValueError(assoc)
 
 
 def _as_expr(x):
@@ -372,9 +406,17 @@ class Ref:
             m = self.M(r[1])
             return _sum(np.array([m[i, i] for i in range(m.shape[0])], dtype=object))
         if k == "velem":
+            if r[1][0] == "vec":   # read only the element that is used
+                n = r[1][2]
+                return self.get(f"{r[1][1]}[{r[2] % n}]")
             return self.V(r[1])[r[2]]
         if k == "melem":
+            if r[1][0] == "mat" and not (len(r[1]) > 4 and r[1][4]):
+                return self.get(f"{r[1][1]}[{r[2] % r[1][2]},{r[3] % r[1][3]}]")
             return self.M(r[1])[r[2], r[3]]
+        if k == "chain":
+            terms = [self.S(t) for t in r[2]]
+            return _fold(r[1], terms, r[3], ref=self)
         raise ValueError(f"unknown scalar recipe {r!r}")
 
     def _pow(self, a, b):
@@ -561,9 +603,15 @@ def free_names(r, acc=None):
     derived syntactically from the recipe (NOT from optyx)."""
     if acc is None:
         acc = {"vars": [], "syms": [], "params": []}
+    if "_seen" not in acc:
+        acc["_seen"] = {k: set(acc[k]) for k in ("vars", "syms", "params")}
+        acc["_decl"] = set()
+    seen = acc["_seen"]
+    decl = acc["_decl"]
 
     def add(k, n):
-        if n not in acc[k]:
+        if n not in seen[k]:
+            seen[k].add(n)
             acc[k].append(n)
 
     def c(x):
@@ -584,9 +632,15 @@ def free_names(r, acc=None):
         elif k == "param":
             add("params", r[1])
         elif k == "vec":
+            if r in decl:
+                return
+            decl.add(r)
             for i in range(r[2]):
                 add("vars", f"{r[1]}[{i}]")
         elif k == "mat":
+            if r in decl:
+                return
+            decl.add(r)
             sym = len(r) > 4 and bool(r[4])
             for i in range(r[2]):
                 for j in range(r[3]):
@@ -619,6 +673,9 @@ def free_names(r, acc=None):
         elif k == "vpow":
             walk(r[1])
             c(r[2])
+        elif k == "chain":
+            for t in r[2]:
+                walk(t)
         else:
             for e in r[1:]:
                 if isinstance(e, (tuple, list)):
@@ -653,16 +710,22 @@ def declare(r):
     order, so that a Build context can create containers before elements are
     referenced by name."""
     out = []
+    seen = set()
 
     def walk(x):
         if isinstance(x, tuple) and x:
-            if x[0] in ("vec", "mat") and x not in out:
-                out.append(x)
+            if x[0] in ("vec", "mat"):
+                if x not in seen:
+                    seen.add(x)
+                    out.append(x)
+                return
             for e in x[1:]:
-                walk(e)
+                if isinstance(e, (tuple, list)):
+                    walk(e)
         elif isinstance(x, list):
             for e in x:
-                walk(e)
+                if isinstance(e, (tuple, list)):
+                    walk(e)
 
     walk(r)
     return out
